@@ -156,6 +156,42 @@ def extract():
     except Exception as e:  # noqa: BLE001
         info["problems"].append(f"_utils.py: {type(e).__name__}: {e}")
     info.setdefault("dtype_exits", [("unparsed", "", [])])
+    # ---- the sources of slotting: what `len(inputs)` counts, the minima, the popping loops (Emit.lean)
+    wanted = {"_fields.py": {"BaseVars": ["_flatten", "__iter__", "__len__"]},
+              "_node.py": {"Node": ["min_input", "min_output"]},
+              "_standard.py": {"StandardNode": ["min_input", "min_output"]}}
+    slot = []
+    for rel, classes in wanted.items():
+        try:
+            tree = ast.parse((REPO / "src/spox" / rel).read_text())
+        except Exception as e:  # noqa: BLE001
+            slot.append((rel, "<unparsed>", []))
+            info["problems"].append(f"{rel}: {type(e).__name__}: {e}")
+            continue
+        for node in tree.body:
+            if isinstance(node, ast.ClassDef) and node.name in classes:
+                found = set()
+                for item in node.body:
+                    if isinstance(item, ast.FunctionDef) and item.name in classes[node.name]:
+                        found.add(item.name)
+                        a = _alpha(item)
+                        body = [ast.unparse(st) for st in _strip_doc(a.body)]
+                        slot.append((rel, f"{node.name}.{item.name}", body))
+                        info["hashes"][f"{rel}:{node.name}.{item.name}"] = _hash(ast.Module(body=_strip_doc(a.body), type_ignores=[]))
+                for m in classes[node.name]:
+                    if m not in found:
+                        slot.append((rel, f"{node.name}.{m}", ["<absent>"]))
+    # the popping loops of Node.to_onnx
+    try:
+        tree = ast.parse((REPO / "src/spox/_node.py").read_text())
+        for node in ast.walk(tree):
+            if isinstance(node, ast.FunctionDef) and node.name == "to_onnx":
+                loops = [ast.unparse(w) for w in ast.walk(_alpha(node)) if isinstance(w, ast.While)]
+                slot.append(("_node.py", "Node.to_onnx:<while loops>", loops))
+                break
+    except Exception as e:  # noqa: BLE001
+        info["problems"].append(f"_node.py: {type(e).__name__}: {e}")
+    info["slotting"] = slot
     return info
 
 
@@ -189,6 +225,12 @@ def generate():
     lines.append("]\n")
     lines.append("/-- exits of `_utils.dtype_to_tensor_type` (the validation `AttrDtype._validate` delegates to) -/")
     lines.append("def dtypeExits : List (String × String × List String) := " + lean_list([_exit(e) for e in info["dtype_exits"]]) + "\n")
+    lines.append("/-- the sources of slotting (statements, self = v0, locals alpha-renamed): what `len(inputs)` counts\n"
+                 "    (`BaseVars._flatten/__iter__/__len__`), the minima (`Node.min_input/min_output`,\n"
+                 "    `StandardNode.min_input/min_output`), the popping loops of `Node.to_onnx` -/")
+    lines.append("def slotting : List (String × String × List String) := [")
+    lines.append(",\n".join(f"  ({lean_str(a)}, {lean_str(b)}, {lean_list([lean_str(x) for x in c])})" for a, b, c in info["slotting"]))
+    lines.append("]\n")
     lines.append("end Generated.AdaptAttrInventory\n")
     write_if_changed(GEN / "AdaptAttrInventory.lean", "\n".join(lines))
     return info
